@@ -518,7 +518,7 @@ _CROSS2 = {
 }
 
 _POOL_HELPER = [(M, "        match &tx.operation {\n            Operation::Split { ratio } => {\n                if let Some(pool) = self.pools.get_mut(&tx.ticker) {\n                    pool.quantity *= *ratio;\n                }\n            }\n            Operation::Unsplit { ratio } => {\n                if let Some(pool) = self.pools.get_mut(&tx.ticker)\n                    && *ratio != Decimal::ZERO\n                {\n                    pool.quantity /= *ratio;\n                }\n            }\n            Operation::Buy { .. }\n            | Operation::Sell { .. }\n            | Operation::Dividend { .. }\n            | Operation::Accumulation { .. }\n            | Operation::CapReturn { .. } => {}\n        }\n        Ok(())\n    }\n", "        if let Some(pool) = self.pools.get_mut(&tx.ticker) {\n            scale_share_count(&mut pool.quantity, tx);\n        }\n        Ok(())\n    }\n"), (M, "\nimpl Default for Matcher {", "\n/// Rescale a share count by the line's SPLIT / UNSPLIT ratio.\nfn scale_share_count(quantity: &mut Decimal, tx: &GbpTransaction) {\n    match &tx.operation {\n        Operation::Split { ratio } => {\n            *quantity *= *ratio;\n        }\n        Operation::Unsplit { ratio } => {\n            if *ratio != Decimal::ZERO {\n                *quantity /= *ratio;\n            }\n        }\n        Operation::Buy { .. }\n        | Operation::Sell { .. }\n        | Operation::Dividend { .. }\n        | Operation::Accumulation { .. }\n        | Operation::CapReturn { .. } => {}\n    }\n}\n\nimpl Default for Matcher {")]
-for _p in ("C02", "C05", "C10"):
+for _p in ("C01", "C02", "C05", "C06", "C10"):
     MUTANTS.setdefault(_p, []).append(mut("neutral-pool-scaling-helper", "pool rescaling delegated to a helper taking &mut pool.quantity", _POOL_HELPER, neutral=True))
 MUTANTS.setdefault("C10", []).append(mut("pool-helper-multiplies-unsplit", "delegated pool rescaling multiplies on UNSPLIT",
     [(M, "        match &tx.operation {\n            Operation::Split { ratio } => {\n                if let Some(pool) = self.pools.get_mut(&tx.ticker) {\n                    pool.quantity *= *ratio;\n                }\n            }\n            Operation::Unsplit { ratio } => {\n                if let Some(pool) = self.pools.get_mut(&tx.ticker)\n                    && *ratio != Decimal::ZERO\n                {\n                    pool.quantity /= *ratio;\n                }\n            }\n            Operation::Buy { .. }\n            | Operation::Sell { .. }\n            | Operation::Dividend { .. }\n            | Operation::Accumulation { .. }\n            | Operation::CapReturn { .. } => {}\n        }\n        Ok(())\n    }\n", "        if let Some(pool) = self.pools.get_mut(&tx.ticker) {\n            scale_share_count(&mut pool.quantity, tx);\n        }\n        Ok(())\n    }\n"), (M, "\nimpl Default for Matcher {", "\n/// Rescale a share count by the line's SPLIT / UNSPLIT ratio.\nfn scale_share_count(quantity: &mut Decimal, tx: &GbpTransaction) {\n    match &tx.operation {\n        Operation::Split { ratio } => {\n            *quantity *= *ratio;\n        }\n        Operation::Unsplit { ratio } => {\n            if *ratio != Decimal::ZERO {\n                *quantity *= *ratio;\n            }\n        }\n        Operation::Buy { .. }\n        | Operation::Sell { .. }\n        | Operation::Dividend { .. }\n        | Operation::Accumulation { .. }\n        | Operation::CapReturn { .. } => {}\n    }\n}\n\nimpl Default for Matcher {")], ["R2:pool handler:Unsplit"]))
